@@ -13,7 +13,7 @@ GMaxOf(i1) == CASE i1 <= 5 -> 9 [] i1 = 6 -> 8 [] i1 \in {7, 8} -> 7 [] i1 \in {
 P(e, base) == (IF Has(e, "alt") THEN "C19+" ELSE "") \o (IF e.op.name = "clear" THEN "C19+" ELSE "") \o base
 Failing(e) ==
     LET ok == e.res # "panic"
-        n  == IF e.op.name = "add" THEN e.n_pre + 1 ELSE 0
+        n  == CASE e.op.name = "add" -> e.n_pre + 1 [] e.op.name = "ext" -> e.n_pre + e.op.count [] OTHER -> 0
         r  == IF ok THEN e.res_post ELSE <<>>
     IN
     Cl(P(e, "C18.addNeverPanics"), ok) \cup
